@@ -74,6 +74,42 @@ fn addr_json(a: &Address) -> Value {
     })
 }
 
+/// Every field of the built pool's PoolSettings (the values the running pooler works with).
+pub fn settings_json(s: &pgcat::pool::PoolSettings) -> Value {
+    let u = &s.user;
+    json!({
+        "pool_mode": s.pool_mode.to_string(),
+        "load_balancing_mode": s.load_balancing_mode.to_string(),
+        "checkout_failure_limit": s.checkout_failure_limit,
+        "shards": s.shards,
+        "db": s.db,
+        "user": {
+            "username": u.username, "password": u.password, "pool_size": u.pool_size, "min_pool_size": u.min_pool_size,
+            "pool_mode": u.pool_mode.map(|m| m.to_string()), "server_lifetime": u.server_lifetime,
+            "statement_timeout": u.statement_timeout, "connect_timeout": u.connect_timeout, "idle_timeout": u.idle_timeout,
+            "server_username": u.server_username, "server_password": u.server_password,
+            "auth_type": format!("{:?}", u.auth_type),
+        },
+        "default_role": s.default_role.map(role_s),
+        "query_parser_enabled": s.query_parser_enabled,
+        "query_parser_max_length": s.query_parser_max_length,
+        "query_parser_read_write_splitting": s.query_parser_read_write_splitting,
+        "primary_reads_enabled": s.primary_reads_enabled,
+        "db_activity": [s.db_activity_based_routing, s.db_activity_init_delay, s.db_activity_ttl, s.table_mutation_cache_ms_ttl],
+        "sharding_function": s.sharding_function.to_string(),
+        "automatic_sharding_key": s.automatic_sharding_key,
+        "healthcheck_timeout": s.healthcheck_timeout,
+        "healthcheck_delay": s.healthcheck_delay,
+        "ban_time": s.ban_time,
+        "sharding_key_regex": s.sharding_key_regex.as_ref().map(|r| r.as_str().to_string()),
+        "shard_id_regex": s.shard_id_regex.as_ref().map(|r| r.as_str().to_string()),
+        "default_shard": format!("{:?}", s.default_shard),
+        "regex_search_limit": s.regex_search_limit,
+        "auth_query": s.auth_query, "auth_query_user": s.auth_query_user, "auth_query_password": s.auth_query_password,
+        "plugins": serde_json::to_value(&s.plugins).unwrap_or(Value::Null),
+    })
+}
+
 fn sorted_pools() -> Vec<(String, String, ConnectionPool)> {
     let mut v: Vec<(String, String, ConnectionPool)> = get_all_pools()
         .into_iter()
@@ -151,6 +187,7 @@ pub async fn walk() -> Value {
             "pool_size": s.user.pool_size, "min_pool_size": s.user.min_pool_size,
             "automatic_sharding_key": s.automatic_sharding_key,
             "plugins": s.plugins.is_some(),
+            "settings": settings_json(s),
             "addresses": shards_json, "panics": panics,
         }));
     }
@@ -253,6 +290,7 @@ pub async fn probe_get(db: &str, user: &str, probes: &[Value]) -> Value {
         }
         let p2 = pool.clone();
         let (d, u) = (db.to_string(), user.to_string());
+        let started = std::time::Instant::now();
         let r = tokio::spawn(async move {
             let cs = ClientStats::new(1, "verif", &u, &d, tokio::time::Instant::now());
             match p2.get(shard, role, &cs).await {
@@ -268,7 +306,7 @@ pub async fn probe_get(db: &str, user: &str, probes: &[Value]) -> Value {
         };
         let tried: Vec<Value> = all.iter().filter(|(_, _, a)| a.error_count() > 0).map(|(s, i, a)| json!([s, i, a.host, a.port, role_s(a.role), a.error_count()])).collect();
         let banned: Vec<Value> = crate::util::guarded(|| pool.get_bans()).unwrap_or_default().iter().map(|(a, _)| json!([a.shard, a.address_index])).collect();
-        res.push(json!({"probe": pr, "outcome": outcome, "tried": tried, "banned": banned}));
+        res.push(json!({"probe": pr, "outcome": outcome, "tried": tried, "banned": banned, "elapsed_ms": started.elapsed().as_millis() as u64}));
         for (_, _, a) in &all {
             a.reset_error_count();
             let _ = crate::util::guarded(|| pool.unban(a));
@@ -298,6 +336,14 @@ pub async fn run_config(case: &Value, path: &str) -> Value {
         log::set_max_level(log::LevelFilter::Off);
         o["show"] = match r {
             Ok(()) => json!("ok"),
+            Err(m) => json!(format!("panic: {}", m)),
+        };
+    }
+    if pgcat::config::get_config().general.tls_certificate.is_some() {
+        // what every TLS client connection does first (client.rs startup_tls -> Tls::new)
+        o["tls"] = match crate::util::guarded(|| pgcat::tls::Tls::new().map(|_| ())) {
+            Ok(Ok(())) => json!("ok"),
+            Ok(Err(e)) => json!(format!("err: {:?}", e)),
             Err(m) => json!(format!("panic: {}", m)),
         };
     }
